@@ -1670,3 +1670,53 @@ def e_svdinit(g, which):
 
 
 split_entry("svdinit", e_svdinit, _SVDINIT, deterministic=True, groups=("c16",))
+
+
+# =============================================================== backend-level functions (tensorly/backend/core.py is an anchor of C15)
+
+_BACKENDFUN = ["kron", "norm", "moveaxis", "sort", "flip", "clip", "index_update", "logsumexp", "concatenate_stack", "tensordot_dot"]
+
+
+def e_backendfun(g, which):
+    import tensorly as tl
+
+    rs = g.rs()
+    g.notes["which"] = which
+    if which == "kron":
+        return dict(fn=tl.kron, kwargs=dict(a=g.arr((2, 3), rs=rs), b=g.arr((3, 2), rs=rs)))
+    if which == "norm":
+        kw = dict(tensor=g.arr(g.shapeN(), rs=rs))
+        g.opt(kw, "order", [1, "inf", 3], 0.5)
+        g.opt(kw, "axis", [0, 1], 0.4)
+        return dict(fn=tl.norm, kwargs=kw)
+    if which == "moveaxis":
+        return dict(fn=lambda tensor, source, destination: tl.moveaxis(tensor, source, destination),
+                    kwargs=dict(tensor=g.arr((3, 4, 2), rs=rs), source=g.choice([0, [0, 1]]), destination=g.choice([2, [1, 2]])))
+    if which == "sort":
+        return dict(fn=lambda tensor, axis: tl.sort(tensor, axis), kwargs=dict(tensor=g.arr((4, 3), rs=rs), axis=g.choice([0, 1, None])))
+    if which == "flip":
+        kw = dict(tensor=g.arr((4, 3), rs=rs))
+        g.opt(kw, "axis", [0, 1], 0.6)
+        return dict(fn=lambda tensor, axis=None: tl.flip(tensor, axis), kwargs=kw)
+    if which == "clip":
+        return dict(fn=tl.clip, kwargs=dict(tensor=g.arr((4, 3), rs=rs), a_min=g.choice([0.0, None]), a_max=g.choice([0.3, None, 1.0])))
+    if which == "index_update":
+        # documented in-place: the first argument is exempt, the values are not
+        return dict(fn=lambda tensor, values: tl.index_update(tensor, tl.index[:, 1], values),
+                    kwargs=dict(tensor=g.arr((4, 3), rs=rs), values=g.arr((4,), rs=rs, kinds=("c", "slice"))), exempt=["tensor"])
+    if which == "logsumexp":
+        import tensorly.backend as T
+
+        return dict(fn=T.logsumexp, kwargs=dict(tensor=g.arr((4, 3), rs=rs), axis=g.choice([0, 1])))
+    if which == "concatenate_stack":
+        arrs = [g.arr((2, 3), rs=rs) for _ in range(3)]
+        if g.flag():
+            return dict(fn=lambda tensors, axis: tl.concatenate(tensors, axis), kwargs=dict(tensors=arrs if g.flag() else tuple(arrs), axis=g.choice([0, 1])))
+        return dict(fn=lambda arrays, axis: tl.stack(arrays, axis), kwargs=dict(arrays=arrs if g.flag() else tuple(arrs), axis=g.choice([0, 1])))
+    a, b = g.arr((3, 4), rs=rs), g.arr((4, 2), rs=rs)
+    if g.flag():
+        return dict(fn=tl.dot, kwargs=dict(a=a, b=b))
+    return dict(fn=lambda a, b: tl.tensordot(a, b, axes=1), kwargs=dict(a=a, b=b))
+
+
+split_entry("tl", e_backendfun, _BACKENDFUN, deterministic=True)
